@@ -53,4 +53,10 @@ model: a waiting call observes `closed` at the instant of Close). -/
 theorem fact_close_always_wakes4 : Gen.nclient4_close_always_wakes = some true := by decide
 theorem fact_close_always_wakes6 : Gen.nclient6_close_always_wakes = some true := by decide
 
+/-- a failed `WriteTo` runs `cancel()` first, whatever the reason of the failure
+(LTS: `transmitFail` / `transmitErr` lead to `cancel1`, `cancel2`; timed model:
+after a write error the call is over and holds nothing). -/
+theorem fact_write_error_unregisters4 : Gen.nclient4_write_error_unregisters = some true := by decide
+theorem fact_write_error_unregisters6 : Gen.nclient6_write_error_unregisters = some true := by decide
+
 end Dhcp.Facts.Client
